@@ -79,6 +79,7 @@ struct Cfg {
     bool list = false;
     bool showNotAdmitted = false;
     int cpuBudget = 20;
+    int heavyQuota = -1;
     int sweepShare = -1;   // percent of the single-point sweep space that is run
     std::string singleProbe;
     std::string shrinkKey, shrinkParser, shrinkFile;
@@ -533,6 +534,7 @@ int main(int argc, char **argv)
         else if (s == "--no-mutations") g_cfg.mutations = false;
         else if (s == "--no-probes") g_cfg.probes = false;
         else if (s == "--sweep") g_cfg.sweepShare = atoi(next().c_str());
+        else if (s == "--heavy-quota") g_cfg.heavyQuota = atoi(next().c_str());
         else if (s == "--list") g_cfg.list = true;
         else if (s == "--show-not-admitted") g_cfg.showNotAdmitted = true;
         else if (s == "--cpu-budget") g_cfg.cpuBudget = atoi(next().c_str());
@@ -892,7 +894,7 @@ int main(int argc, char **argv)
             for (size_t i = g_nRegress; i < g_docs.size(); i++)
                 if (i < g_nTop || m < perSub) work.push_back({ W_MUT, int(i), m, cheap[(g++) % cheap.size()], -1, 0, 0 });
         vh::Rng hr(g_cfg.seed * 77773ull + 5);
-        int quota = quick ? 12 : 150;
+        int quota = g_cfg.heavyQuota >= 0 ? g_cfg.heavyQuota : quick ? 12 : 100;
         for (int k : heavy)
             for (int q = 0; q < quota; q++) work.push_back({ W_MUT, int(g_nRegress + hr.below(uint32_t(g_docs.size() - g_nRegress))), 1000 + q, k, -1, 0, 0 });
         runStage("s3", work, 24);
